@@ -158,6 +158,9 @@ class Sim:
         mode = self.clockcfg.get('mode')
         if mode == 'tick':
             self.now += self.rng_clock.choice((1e-6, 1e-5, 1e-4, 1e-3))
+        elif mode == 'slow':
+            # a slow machine: every look at the clock finds it a fixed step later (clockcfg['step'] seconds)
+            self.now += self.clockcfg.get('step', 0.004)
         elif mode == 'jumpy':
             r = self.rng_clock.random()
             if r < 0.02:
